@@ -21,8 +21,28 @@ def exc(e):
     return ['exc', type(e).__name__, str(e)[:80]]
 
 
+def respell(h, how):
+    """the same bytes in another spelling bytes.fromhex accepts: upper case, alternating case, blanks between bytes"""
+    if h is None or not how:
+        return h
+    if how == 'upper':
+        return h.upper()
+    if how == 'mixed':
+        return ''.join(ch.upper() if i % 3 == 0 else ch for i, ch in enumerate(h))
+    if how == 'spaced':
+        return ' '.join(h[i:i + 2] for i in range(0, len(h), 2))
+    raise ValueError(how)
+
+
 def do_sign(c):
     key = KINDS[c['kind']](bytes.fromhex(c['sk']))
+    if c.get('warm'):
+        # the SAME key object has signed before, for the other network and the other key-carrying mode: whatever sign()
+        # remembers per key must not leak into this signature
+        try:
+            cip8.sign('warm-up', key, attach_cose_key=not c['attach'], network=Network(1 - c['net']))
+        except Exception:
+            pass
     try:
         r = cip8.sign(c['msg'], key, attach_cose_key=c['attach'], network=Network(c['net']))
     except Exception as e:
@@ -36,7 +56,8 @@ def do_sign(c):
     return {'sig': r, 'key': None}
 
 
-def do_verify_one(sig, key, attach):
+def do_verify_one(sig, key, attach, spell=None):
+    sig, key = respell(sig, spell), respell(key, spell)
     sm = sig if key is None else {'signature': sig, 'key': key}
     try:
         r = cip8.verify(sm) if attach is None else cip8.verify(sm, attach_cose_key=attach)
